@@ -473,6 +473,9 @@ def e2_op_strategies(nparts, ngroups, profile):
         'badparentcrash': st.tuples(idx, ops_app_placeholder)
         .map(lambda t: ['macro', [['reparent', t[0], 8], ['ev'], ['ev'],
                                   t[1], ['crashcycle']]]),
+        # a rack is re-defined under another pod
+        'rebucket': st.tuples(st.just('rebucket'), st.integers(0, 8),
+                              st.integers(0, 3)).map(list),
         # the definition of a rack is deleted under its servers
         'rmbucket': st.tuples(st.just('rmbucket'),
                               st.integers(0, 8)).map(list),
@@ -605,7 +608,7 @@ E2_WEIGHTS = {
     'reboot': 1, 'resize': 1, 'shave': 1, 'repart': 1, 'reparent': 1,
     'state': 1, 'allocs': 1, 'idg': 1, 'rmidg': 1, 'bl': 1, 'blackout': 1,
     'cellev': 1, 'cellrm': 0, 'rmbucket': 0, 'rmbucketrestart': 0,
-    'rmbucketcrash': 0, 'badparent': 0, 'badparentcrash': 0, 'rmrestart': 0, 'evburst': 0, 'retrait': 0, 'running': 1, 'adv': 2, 'adv_ret': 1, 'tickreboots': 1,
+    'rmbucketcrash': 0, 'badparent': 0, 'badparentcrash': 0, 'rmrestart': 0, 'evburst': 0, 'retrait': 0, 'rebucket': 0, 'running': 1, 'adv': 2, 'adv_ret': 1, 'tickreboots': 1,
     'checkreboot': 1, 'integrity': 1, 'enq': 1, 'proc': 1, 'ev': 3,
     'sched': 3, 'cycle': 6, 'restart': 1,
 }
